@@ -462,11 +462,135 @@ pub fn mvar_metrics(run: &Run) {
     run.observe_many(&all, &non);
 }
 
+
+// ---------------------------------------------------------------------------
+// (f) DeltaSetIndexMap builder: every inner x outer bit width, i.e. packed entries on both sides of
+// every entry-size boundary (8/16/24/32 bits); format 0 (u16 count) and format 1 (u32 count); also
+// read back through an HVAR table
+// ---------------------------------------------------------------------------
+
+fn index_pairs(ib: u32, ob: u32) -> Vec<(u16, u16)> {
+    // (outer, inner) pairs whose ORed widths are exactly ob / ib bits
+    let vals = |bits: u32| -> Vec<u16> {
+        let top = 1u32 << (bits - 1);
+        let mut v = vec![0u32, 1, top, (1u32 << bits) - 1, top | (top >> 1), top | 1];
+        v.retain(|x| *x < (1 << bits));
+        v.sort();
+        v.dedup();
+        v.into_iter().map(|x| x as u16).collect()
+    };
+    let mut out = vec![];
+    for o in vals(ob) {
+        for i in vals(ib) {
+            out.push((o, i));
+        }
+    }
+    out
+}
+
+fn check_index_map(pairs: &[(u16, u16)], count: usize, via_hvar: bool) -> Result<u64, (String, String)> {
+    use read_fonts::FontRead;
+    let entries: Vec<(u16, u16)> = (0..count).map(|k| pairs[k % pairs.len()]).collect();
+    let map: DeltaSetIndexMap = entries.iter().map(|(o, i)| ((*o as u32) << 16) | *i as u32).collect();
+    let lookup = |m: &read_fonts::tables::variations::DeltaSetIndexMap, what: &str| -> Result<u64, (String, String)> {
+        let mut h = Fnv::new();
+        for (k, (o, i)) in entries.iter().enumerate() {
+            match m.get(k as u32) {
+                Ok(ix) if ix.outer == *o && ix.inner == *i => {
+                    h.u64(((ix.outer as u64) << 16) | ix.inner as u64);
+                }
+                Ok(ix) => {
+                    return Err((
+                        format!("DeltaSetIndexMap built by write-fonts reads back a different (outer, inner) ({what})"),
+                        format!("entry {k} of {count}: wrote ({o}, {i}) read ({}, {})", ix.outer, ix.inner),
+                    ))
+                }
+                Err(e) => return Err((format!("DeltaSetIndexMap built by write-fonts cannot be read ({what})"), format!("entry {k} of {count}: {e}"))),
+            }
+        }
+        Ok(h.finish())
+    };
+    if via_hvar {
+        use write_fonts::tables::hvar::Hvar;
+        let region = VariationRegion::new(vec![RegionAxisCoordinates::new(f214(0), f214(ONE), f214(ONE))]);
+        let mut sb = VariationStoreBuilder::new(1);
+        sb.add_deltas(vec![(region, 1i32)]);
+        let (store, _) = sb.build();
+        let hvar = Hvar::new(store, Some(map), None, None);
+        let mut fb = write_fonts::FontBuilder::new();
+        fb.add_table(&hvar).map_err(|e| ("HVAR with a DeltaSetIndexMap does not compile".to_string(), format!("{e:?}")))?;
+        let bytes = fb.build();
+        let font = FontRef::new(&bytes).map_err(|e| ("harness: HVAR font does not parse".to_string(), format!("{e}")))?;
+        let hv = font.hvar().map_err(|e| ("HVAR written by write-fonts does not parse".to_string(), format!("{e}")))?;
+        let m = hv.advance_width_mapping().ok_or_else(|| ("HVAR advance mapping missing after compile".to_string(), String::new()))?.map_err(|e| ("HVAR advance mapping does not parse".to_string(), format!("{e}")))?;
+        lookup(&m, "through HVAR")
+    } else {
+        let bytes = write_fonts::dump_table(&map).map_err(|e| ("DeltaSetIndexMap does not compile".to_string(), format!("{e:?}")))?;
+        let m = read_fonts::tables::variations::DeltaSetIndexMap::read(read_fonts::FontData::new(&bytes)).map_err(|e| ("DeltaSetIndexMap written by write-fonts does not parse".to_string(), format!("{e}")))?;
+        lookup(&m, if count > 65535 { "format 1" } else { "format 0" })
+    }
+}
+
+pub fn index_map_family(run: &Run) {
+    use rayon::prelude::*;
+    let long_inner = [1u32, 2, 8, 9, 15, 16];
+    let long_outer = [1u32, 8, 15, 16];
+    run.bound(
+        "f.delta_set_index_map",
+        json!({"inner_bit_widths": "1..=16", "outer_bit_widths": "1..=16", "values_per_width": "0, 1, top bit, all ones, top two bits, top|1", "format0_entries": "every (outer, inner) pair once",
+               "format1": {"inner_bits": long_inner, "outer_bits": long_outer, "entries": 65536 + 37}, "hvar_path": {"inner_bits": long_inner, "outer_bits": long_outer}}),
+    );
+    let mut jobs: Vec<(u32, u32, usize, bool)> = vec![];
+    for ib in 1..=16u32 {
+        for ob in 1..=16u32 {
+            jobs.push((ib, ob, 0, false));
+        }
+    }
+    for ib in long_inner {
+        for ob in long_outer {
+            jobs.push((ib, ob, 65536 + 37, false));
+            jobs.push((ib, ob, 0, true));
+        }
+    }
+    let all = std::sync::Mutex::new(HashSet::new());
+    jobs.par_iter().for_each(|(ib, ob, count, via_hvar)| {
+        let pairs = index_pairs(*ib, *ob);
+        let count = if *count == 0 { pairs.len() } else { *count };
+        run.eval();
+        run.trans(count as u64);
+        let case = json!({"kind":"index_map","inner_bits":ib,"outer_bits":ob,"entries":count,"via_hvar":via_hvar});
+        match guard(|| check_index_map(&pairs, count, *via_hvar)) {
+            Ok(Ok(d)) => {
+                all.lock().unwrap().insert(digest_of(&("imap", ib, ob, count, via_hvar, d)));
+            }
+            Ok(Err((id, details))) => {
+                if id.starts_with("harness") {
+                    run.machinery_error(&format!("{id}: {details}"));
+                } else {
+                    run.violation(&format!("{id}; packed width {} bits", ib + ob), &format!("inner {ib} bits, outer {ob} bits: {details}"), case)
+                }
+            }
+            Err(p) => run.violation(&format!("DeltaSetIndexMap builder panic: {} in {}", p.kind(), p.site()), &format!("inner {ib} bits, outer {ob} bits, {count} entries: {}", p.message), case),
+        }
+    });
+    let a = all.into_inner().unwrap();
+    run.count("f.index_maps", jobs.len() as u64);
+    run.observe_many(&a, &a);
+}
+
 pub fn replay(run: &Run, case: &Value) {
     match case["kind"].as_str().unwrap_or("") {
         "metrics_gvar" => gvar_metrics(run),
         "norm_two_axes" => multi_axis(run),
         "metrics_mvar" => mvar_metrics(run),
+        "index_map" => {
+            let (ib, ob) = (case["inner_bits"].as_u64().unwrap_or(1) as u32, case["outer_bits"].as_u64().unwrap_or(1) as u32);
+            let pairs = index_pairs(ib, ob);
+            match check_index_map(&pairs, case["entries"].as_u64().unwrap_or(1) as usize, case["via_hvar"].as_bool().unwrap_or(false)) {
+                Ok(_) => println!("replay: map reads back"),
+                Err((id, d)) => run.violation(&format!("{id}; packed width {} bits", ib + ob), &d, case.clone()),
+            }
+        }
         k => println!("replay: unknown kind {k}"),
     }
 }
